@@ -258,10 +258,10 @@ func (s *stepper) observe(obs replay.Obs, r *httpx.Resp, rid string, unary bool,
 	}
 	j := svc.Take(s.curSID())
 	jj := []string{}
-	var metas []string
+	var inMetas []string
 	for _, e := range j {
 		if strings.HasPrefix(e, "meta:") {
-			metas = append(metas, strings.TrimPrefix(e, "meta:"))
+			inMetas = append(inMetas, strings.TrimPrefix(e, "meta:"))
 			continue
 		}
 		if strings.HasPrefix(e, "input-type:") {
@@ -270,10 +270,10 @@ func (s *stepper) observe(obs replay.Obs, r *httpx.Resp, rid string, unary bool,
 		jj = append(jj, e)
 	}
 	obs["journal"] = jj
-	if len(metas) == 1 {
+	if len(inMetas) == 1 {
 		keys := []string{}
-		if metas[0] != "" {
-			keys = strings.Split(metas[0], ",")
+		if inMetas[0] != "" {
+			keys = strings.Split(inMetas[0], ",")
 		}
 		obs["inmeta"] = keys
 	}
